@@ -78,3 +78,14 @@ impl MemoryManager {
         self.mem_manager.peek().tokens.len()
     }
 }
+
+impl MemoryManager {
+    /// Harness-only state injection: retire `n` dummy allocations through the real `free`, i.e.
+    /// the state after `n` earlier stream/handle removals whose memory is still waiting.
+    pub fn verif_preload(&self, n: usize) {
+        for _ in 0..n {
+            let p: *mut u64 = crate::alloc::allocate(1);
+            self.free(p, 1);
+        }
+    }
+}
